@@ -71,4 +71,6 @@ TRIGGER = {
     'nl2br': newline_in_block,
     'sane_lists': sane_lists_trigger,
 }
+_META_FIRST = re.compile(r'^(?:[ ]{0,3}[A-Za-z0-9_-]+:|---(?:\s|$)|\s*$)')
+TRIGGER['meta'] = lambda s: bool(_META_FIRST.match(s.replace('\r\n', '\n').replace('\r', '\n').replace('\x02', '').replace('\x03', '').expandtabs(4).split('\n', 1)[0]))
 TRIGGER['extra'] = lambda s: any(TRIGGER[e](s) for e in ('fenced_code', 'footnotes', 'attr_list', 'def_list', 'tables', 'abbr', 'md_in_html'))
